@@ -67,6 +67,9 @@ func sym(v ssa.Value, d int) string {
 		if iv := allocInit(x); iv != nil {
 			return sym(iv, d+1)
 		}
+		if s, ok := litSym(x, d); ok {
+			return "&" + RecvTypeName(x.Type()) + ":" + s
+		}
 		return "alloc:" + x.Comment
 	case *ssa.UnOp:
 		if x.Op == token.MUL {
